@@ -640,10 +640,12 @@ func (c *Ctx) ThresholdRules(prop string) {
 		c.R.Anchor(rule1, "OnGenerate:roles", "cannot infer which parameter is the threshold (the one sent in prepare messages)")
 		return
 	}
-	isHalfN := func(v ssa.Value) bool {
+	isHalfNS := func(v ssa.Value, sub Subst) bool {
 		b, ok := v.(*ssa.BinOp)
-		return ok && b.Op == token.QUO && b.X == n && an.IsConstInt(b.Y, 2)
+		return ok && b.Op == token.QUO && sub.Res(b.X) == n && an.IsConstInt(b.Y, 2)
 	}
+	isHalfN := func(v ssa.Value) bool { return isHalfNS(v, nil) }
+	_ = isHalfN
 	type clause struct {
 		name string
 		acc  func(a *an.Atom) bool
@@ -653,7 +655,10 @@ func (c *Ctx) ThresholdRules(prop string) {
 			return a != nil && ((a.Op == "!=" && ((a.LV == n && an.IsConstInt(a.RV, 0)) || (a.RV == n && an.IsConstInt(a.LV, 0)))) || (a.Op == "<" && an.IsConstInt(a.LV, 0) && a.RV == n))
 		}},
 		{"threshold <= participants", func(a *an.Atom) bool { return a != nil && a.Op == "<=" && a.LV == t && a.RV == n }},
-		{"participants/2 < threshold", func(a *an.Atom) bool { return a != nil && a.Op == "<" && isHalfN(a.LV) && a.RV == t }},
+		{"participants/2 < threshold", nil},
+	}
+	halfClause := func(a *an.Atom, sub Subst) bool {
+		return a != nil && a.Op == "<" && isHalfNS(a.LV, sub) && sub.Res(a.RV) == t
 	}
 	// sinks: calls that start a generation (module callees that reach sender.Prepare or an account creator)
 	nsink := 0
@@ -680,7 +685,12 @@ func (c *Ctx) ThresholdRules(prop string) {
 			cl := cl
 			target := ci.(ssa.Instruction)
 			x, path := an.Cut(an.CutQuery{From: an.Entry(F), Target: func(i ssa.Instruction) bool { return i == target },
-				AcceptEdge: func(b *ssa.BasicBlock, i int, a *an.Atom) bool { return cl.acc(a) }})
+				AcceptEdge: c.WithSummaries(func(a *an.Atom, sub Subst) bool {
+					if cl.acc == nil {
+						return halfClause(a, sub)
+					}
+					return cl.acc(resolveAtom(a, sub))
+				})})
 			if x != nil {
 				c.R.Fail(rule1, Fn(F)+":"+cl.name+"@"+CalleeName(ci), c.Pos(ci), "a generation can be started without ["+cl.name+"]: with threshold <= participants/2 two disjoint quorums exist and conflicting duties can both be signed", "generation only below ["+cl.name+"]", an.PathString(c.Pos, path))
 			} else {
